@@ -303,6 +303,7 @@ structure Env where
   probe : MockProbe
   strategy : LineStrategy
   style : TraceStyle
+  nested : Bool              -- the executed code imports another student file (`Sandbox._import` re-enters the tracer)
   exc : Option ExcDesc
 
 def internalCls : String := "<internal>"
@@ -340,7 +341,7 @@ def applyPrim (env : Env) (s : St) : Prim → St
     | [] => s
     | f :: ps => { s with patches := ps, g := if env.probe.stopRestores then f.restore s.g else s.g }
   | .exec traced =>
-    if traced && env.style.installs && !env.style.restores then
+    if traced && env.style.leaks env.nested then
       { s with g := { s.g with trace := s.fresh }, fresh := s.fresh + 1 }
     else s
   | .captureOk w => { s with exception := some (env.reported w), feedbacks := s.feedbacks ++ [env.mkFb w] }
@@ -355,12 +356,13 @@ def applyPrims (env : Env) (s : St) (qs : List Prim) : St := qs.foldl (applyPrim
 /-- The configuration read from the tree under test. -/
 structure Cfg where
   exec : ExecuteDef
+  imp : ImportDef
   probe : MockProbe
   unguarded : List Hazard
   strategy : LineStrategy
 
 def genCfg : Cfg :=
-  { exec := executeDef, probe := mockProbe, unguarded := unguarded, strategy := lineStrategy }
+  { exec := executeDef, imp := importDef, probe := mockProbe, unguarded := unguarded, strategy := lineStrategy }
 
 def hazardous (unguarded : List Hazard) (e : ExcDesc) : Bool := e.hazards.any (fun h => unguarded.contains h)
 
@@ -374,13 +376,20 @@ def sigOf (cfg : Cfg) (t : Termination) (inject : Bool) : Sig :=
 
 def baseOf (s : St) : Base := { p0 := s.patches.length, o0 := s.stdouts.length }
 
-def envOf (cfg : Cfg) (style : TraceStyle) (t : Termination) : Env :=
-  { probe := cfg.probe, strategy := cfg.strategy, style := style, exc := t.exc? }
+def envOf (cfg : Cfg) (style : TraceStyle) (nested : Bool) (t : Termination) : Env :=
+  { probe := cfg.probe, strategy := cfg.strategy, style := style, nested := nested && cfg.imp.reentersTracer,
+    exc := t.exc? }
 
-/-- `Sandbox._execute(code, filename, kind, threaded=False)`. -/
-def execute (cfg : Cfg) (style : TraceStyle) (s : St) (t : Termination) (inject : Bool) : St × Outcome :=
+/-- `Sandbox._execute(code, filename, kind, threaded=False)`.
+    `nested`: the code imports another student file while it runs (`_restricted_import` → `Sandbox._import`).
+    `_import` is read from its AST into `cfg.imp`; as long as it is `transparent` (no handlers, no mocking calls -
+    checked by `c04_import_transparent` / `c05_import_transparent`) a failure inside the imported file is simply a
+    frame deeper in `t`'s traceback, and the only effect of the nesting is that the tracer's `with` is entered a
+    second time on the same tracer object. -/
+def execute (cfg : Cfg) (style : TraceStyle) (nested : Bool) (s : St) (t : Termination) (inject : Bool) :
+    St × Outcome :=
   let r := plan cfg.probe (baseOf s) (sigOf cfg t inject) cfg.exec
-  (applyPrims (envOf cfg style t) s r.1, r.2)
+  (applyPrims (envOf cfg style nested t) s r.1, r.2)
 
 /-! ## Entry points and histories -/
 
@@ -401,6 +410,7 @@ inductive Ret where
 structure Op where
   entry : Entry
   style : TraceStyle
+  nested : Bool                -- the executed code imports another student file
   inject : Bool
   term : Termination
   deriving DecidableEq, Repr
@@ -419,10 +429,10 @@ def stepOp (cfg : Cfg) (s : St) (op : Op) : St × Outcome × Ret :=
   match op.entry with
   | .call false => ({ s with exception := some noFunctionCls }, .returned, .exceptionValue)
   | .run =>
-    let r := execute cfg op.style s op.term op.inject
+    let r := execute cfg op.style op.nested s op.term op.inject
     (r.1, r.2, if r.2 = .returned then .sandbox else .none)
   | _ =>
-    let r := execute cfg op.style s op.term op.inject
+    let r := execute cfg op.style op.nested s op.term op.inject
     (r.1, r.2, if r.2 = .returned then handleResult r.1 else .none)
 
 def runOps (cfg : Cfg) (s : St) : List Op → St
@@ -485,15 +495,16 @@ def decEntry : String → Option Entry
   | "run" => some .run | "call" => some (.call true) | "callmissing" => some (.call false)
   | "eval" => some .evaluate | _ => none
 
-/-- `<entry> <style name> <inject> <term>`; the style must be one of the generated ones. -/
+/-- `<entry> <style name> <nested> <inject> <term>`; the style must be one of the generated ones. -/
 def decOp : List String → Option (Op × List String)
-  | en :: st :: inj :: ts => do
+  | en :: st :: nest :: inj :: ts => do
     let en ← decEntry en
     let st ← decStr st
     let style ← traceStyles.find? (fun x => x.name = st)
+    let nest ← decBool nest
     let inj ← decBool inj
     let (t, ts) ← decTerm ts
-    pure ({ entry := en, style := style, inject := inj, term := t }, ts)
+    pure ({ entry := en, style := style, nested := nest, inject := inj, term := t }, ts)
   | _ => none
 
 def encOptNat : Option Nat → String
